@@ -1,4 +1,4 @@
-//! Native replay helper: reads JSON lines {"src":..., "ctx":{...}, "name":opt, "fuel":opt}
+//! Native replay helper: reads JSON lines {"src":..., "ctx":{...}, "name":opt, "fuel":opt, "templates":opt {name: src}}
 //! from stdin, renders each with the real engine and prints one JSON line per input:
 //! {"ok":"<output>"} | {"err":"<kind>: <msg>"} | {"panic":"<msg>"}.
 use minijinja::{Environment, Value};
@@ -21,6 +21,12 @@ fn main() {
         let r = catch_unwind(AssertUnwindSafe(|| {
             let mut env = Environment::new();
             env.set_fuel(Some(fuel.unwrap_or(1_000_000)));
+            if let Some(extra) = req["templates"].as_object() {
+                // companion templates (engine B's multi-template families)
+                for (n, s) in extra {
+                    env.add_template_owned(n.clone(), s.as_str().unwrap_or("").to_string())?;
+                }
+            }
             env.add_template_owned(name.clone(), src.clone())?;
             let t = env.get_template(&name)?;
             t.render(ctx.clone())
